@@ -8,7 +8,10 @@
 
 package caddy
 
-import "io"
+import (
+	"encoding/json"
+	"io"
+)
 
 // VerifWritersPool returns the usage pool of open log writers (logging.go).
 func VerifWritersPool() *UsagePool { return writers }
@@ -32,4 +35,14 @@ func VerifUnwrapWriter(w io.WriteCloser) io.WriteCloser {
 		return wd.WriteCloser
 	}
 	return w
+}
+
+// VerifProvisionLog runs the real BaseLog.provisionCommon — the set-up every custom log
+// and the sink log share: take the writer from the `writers` pool (Logging.openWriter),
+// parse the level, load the encoder module — for a log with the given writer opener,
+// level and (optional) encoder module, and returns the writer the log ended up with.
+func (logging *Logging) VerifProvisionLog(ctx Context, opener WriterOpener, level string, encoderRaw json.RawMessage) (io.WriteCloser, error) {
+	cl := &BaseLog{Level: level, EncoderRaw: encoderRaw, writerOpener: opener}
+	err := cl.provisionCommon(ctx, logging)
+	return cl.writer, err
 }
